@@ -135,6 +135,16 @@ class HB(Falsy, H):
     pass
 
 
+@desper.event_handler(bonus='h_bonus')
+class HX(H):
+    """Decorated subclass with an event of its own: decorating it must not
+    add 'bonus' to the table of H or of H's other subclasses (they have no
+    such method, registering them would fail)."""
+
+    def h_bonus(self):
+        self.log.append((self.label, 'bonus', None, None))
+
+
 class HD(H):
     """on_remove asks for the (deferred) deletion of its own entity."""
     effects = None
@@ -258,7 +268,7 @@ class _Types(dict):
         return dict.__contains__(self, name)
 
 
-TYPES = _Types({c.__name__: c for c in (A, X, N, H, HB, HD, HZ, HY, HR, HS, HKR,
+TYPES = _Types({c.__name__: c for c in (A, X, N, H, HB, HX, HD, HZ, HY, HR, HS, HKR,
                                          P, OA)})
 
 
@@ -396,11 +406,18 @@ class WorldDriver:
         """A fresh World inherits nothing from another, used, World."""
         used = desper.World()
         log = []
-        e = used.create_entity(A('probe-a'), H('probe-h', log))
-        used.add_processor(RecProc(log))
-        used.delete_entity(e)
-        used.dispatch_enabled = False
-        used.create_entity(H('probe-h2', log))
+        try:
+            e = used.create_entity(A('probe-a'), H('probe-h', log))
+            used.add_processor(RecProc(log))
+            used.delete_entity(e)
+            used.dispatch_enabled = False
+            used.create_entity(H('probe-h2', log))
+        except Exception as exc:
+            # (H is a base class with decorated subclasses of its own:
+            # their tables must not leak into it)
+            raise Violation('plain_operations_work',
+                            f'creating entities with components A and H '
+                            f'in a new World raised {exc!r}', isolation=True)
         del log[:]
         fresh = desper.World()
         problems = []
